@@ -347,9 +347,9 @@ func intLit(e ast.Expr) (int, bool) {
 	return 0, false
 }
 
-func cmpCall(e ast.Expr) (*ast.CallExpr, bool) {
+func cmpCallC04(e ast.Expr) (*ast.CallExpr, bool) {
 	if p, ok := e.(*ast.ParenExpr); ok {
-		return cmpCall(p.X)
+		return cmpCallC04(p.X)
 	}
 	call, ok := e.(*ast.CallExpr)
 	if !ok {
@@ -389,11 +389,11 @@ func (c *gctx) cond(e ast.Expr, spec guardSpec) (string, bool) {
 		var call *ast.CallExpr
 		var lit int
 		litLeft := false
-		if cc, ok := cmpCall(x.X); ok {
+		if cc, ok := cmpCallC04(x.X); ok {
 			if v, ok := c.intLit(x.Y); ok {
 				call, lit = cc, v
 			}
-		} else if cc, ok := cmpCall(x.Y); ok {
+		} else if cc, ok := cmpCallC04(x.Y); ok {
 			if v, ok := c.intLit(x.X); ok {
 				call, lit, litLeft = cc, v, true
 			}
@@ -429,7 +429,7 @@ func hasCmpNode(n ast.Node) bool {
 	found := false
 	Walk(n, func(m ast.Node) bool {
 		if c, ok := m.(*ast.CallExpr); ok {
-			if _, ok := cmpCall(c); ok {
+			if _, ok := cmpCallC04(c); ok {
 				found = true
 			}
 		}
@@ -442,7 +442,7 @@ func hasCmp(e ast.Expr) bool {
 	found := false
 	Walk(e, func(n ast.Node) bool {
 		if c, ok := n.(*ast.CallExpr); ok {
-			if _, ok := cmpCall(c); ok {
+			if _, ok := cmpCallC04(c); ok {
 				found = true
 			}
 		}
